@@ -50,6 +50,8 @@ theorem gen_retry (xo h : Nat) :
 theorem gen_header_tables :
     Gen.Crsd.hdr_fields = fieldNames ∧ Gen.Crsd.hdr_int_fields = fieldNames.take 8 ∧
     Gen.Crsd.first_fmt = firstFmtCrsd ∧ Gen.Crsd.line_fmt = lineFmt ∧ Gen.Crsd.join_sep = "" ∧
-    Gen.Crsd.terminator = [12, 10] := by decide
+    Gen.Crsd.terminator = [12, 10] ∧
+    -- every header attribute is populated when the fit test measures the text, none is filled in afterwards
+    fieldNames.all (fun f => Gen.Crsd.hdr_measured.contains f) = true ∧ Gen.Crsd.hdr_late = [] := by decide
 
 end Sarpy.Props.C11
